@@ -174,7 +174,7 @@ PROPS["C08"] = {
     "jobs": [{"engine": "udp", "args": {"n": T(2400, 120000)}}],
     "require": {"quick": {"datagrams_delivered": 40000, "datagrams_truncated_by_receive_buffer": 5000, "receiver_reopens": 2000, "port_swaps": 200,
                           "receiver_moves": 1000, "undelivered:queue_tail_drop": 5000, "undelivered:receive_buffer_full": 300, "sends_would_block": 3000,
-                          "accounting_probe_bursts": 3000},
+                          "accounting_probe_bursts": 3000, "long_steady_flows": 20},
                 "thorough": {"datagrams_delivered": 2000000}},
     "assumptions": ["senders and receivers are IPv4 sockets on single-address nodes", "a socket is moved only when the harness has no operation outstanding on it"],
 }
@@ -637,3 +637,8 @@ PROPS["C11"] = {
                     "an open, unbound socket never connects to a target of the other address family; unbound v6 UDP sockets never send"],
     "timeout": {"quick": 900, "thorough": 3600},
 }
+
+PROPS["C04"]["jobs"] += [
+    {"name": "handler-monitors-over-timers", "engine": "timers", "prop": "C03", "mode": "random", "args": {"n": T(20000, 500000), "maxops": T(60, 80)}},
+    {"name": "handler-monitors-over-resolver", "engine": "resolver", "prop": "C14", "mode": "random", "args": {"n": T(20000, 300000)}},
+]
